@@ -9,7 +9,7 @@ PYTHONPATH=$w/src timeout 900 /venv/bin/python "$d/demo.py" >/dev/null 2>&1; cle
 git apply "$d/patch.diff" || { echo "apply failed"; cd /; git -C /repo worktree remove --force "$w"; exit 3; }
 PYTHONPATH=$w/src timeout 900 /venv/bin/python "$d/demo.py" >"$w/demo.out" 2>&1; patched=$?
 tailmsg=$(tail -2 "$w/demo.out" | tr '\n' ' ' | cut -c1-300)
-PYTHONPATH=$w/src /venv/bin/python -m pytest -q -p no:cacheprovider --timeout=900 2>&1 | tail -1 > "$w/suite.out"
+PYTHONPATH=$w/src /venv/bin/python -m pytest -q -p no:cacheprovider --timeout=900 -n 4 2>&1 | tail -1 > "$w/suite.out"
 suite=$(cat "$w/suite.out")
 cd /; git -C /repo worktree remove --force "$w"
 /venv/bin/python - "$d" "$clean" "$patched" "$suite" "$tailmsg" <<'PY'
